@@ -477,6 +477,53 @@ impl Prop for C10 {
 		Ok(())
 	}
 
+	fn enumerate(_tier: Tier, shard: usize, nshards: usize, f: &mut dyn FnMut(Case, bool) -> bool) -> Vec<&'static str> {
+		// all initial paths of <= 2 segments over {a, '', ., .., a:b} x 4 hosts x ALL op sequences of length <= 2
+		let alphabet = ["a", "", ".", "..", "a:b"];
+		let mut inits: Vec<Vec<String>> = vec![vec![]];
+		for x in alphabet {
+			inits.push(vec![x.to_string()]);
+			for y in alphabet {
+				inits.push(vec![x.to_string(), y.to_string()]);
+			}
+		}
+		let ops1: Vec<POp> = vec![
+			POp::Push("a".into()), POp::Push("".into()), POp::Push("a:b".into()), POp::Push("..".into()), POp::Push(".".into()),
+			POp::Pop, POp::Clear, POp::SymPush("..".into()), POp::SymPush("".into()), POp::SymPush("a:b".into()), POp::SymAppend(vec!["".into(), "..".into()]), POp::Normalize,
+		];
+		let mut seqs: Vec<Vec<POp>> = ops1.iter().map(|o| vec![o.clone()]).collect();
+		for a in &ops1 {
+			for b in &ops1 {
+				seqs.push(vec![a.clone(), b.clone()]);
+			}
+		}
+		let embeds: Vec<Option<Embed>> = vec![
+			None,
+			Some(Embed { full: true, scheme: Some("s".into()), authority: None, query: Some("q".into()), fragment: None }),
+			Some(Embed { full: false, scheme: None, authority: None, query: None, fragment: Some("f".into()) }),
+			Some(Embed { full: false, scheme: None, authority: Some("h".into()), query: Some("q".into()), fragment: None }),
+			Some(Embed { full: true, scheme: Some("s".into()), authority: Some("".into()), query: None, fragment: None }),
+		];
+		let mut i = 0usize;
+		for e in &embeds {
+			for segs in &inits {
+				for abs in [false, true] {
+					for ops in &seqs {
+						i += 1;
+						if i % nshards != shard {
+							continue;
+						}
+						let fam = if i % 2 == 0 { Fam::Uri } else { Fam::Iri };
+						if !f(Case { fam, embed: e.clone(), abs, segs: segs.clone(), ops: ops.clone() }, true) {
+							return vec![];
+						}
+					}
+				}
+			}
+		}
+		vec!["initial paths of <= 2 segments over {a,'',.,..,a:b} x {relative, absolute} x 5 hosts (stand-alone, scheme only, bare reference, authority, empty authority) x all op sequences of length <= 2 over 12 ops"]
+	}
+
 	fn floors(_tier: Tier) -> Vec<(&'static str, u64)> {
 		vec![
 			("judged", 150_000),
